@@ -204,6 +204,31 @@ fn main() {
             read_buffer_size: r["cfg"]["read_buffer_size"].as_u64().unwrap() as usize,
             shards: r["cfg"]["shards"].as_u64().unwrap() as usize,
         };
+        if r["large"] == json!(true) {
+            let size = r["size"].as_u64().unwrap() as usize;
+            let big: Vec<u8> = (0..size).map(|i| b'a' + (i % 23) as u8).collect();
+            let mut stream: Vec<Argv> = vec![vec![b"SET".to_vec(), b"k".to_vec(), big]];
+            stream.extend(r["body"].as_array().unwrap().iter().map(|o| resp::line(o.as_str().unwrap())));
+            let wires: Vec<Vec<u8>> = stream.iter().map(resp::wire).collect();
+            let cuts: Vec<usize> = r["cuts"].as_array().map(|a| a.iter().map(|c| c.as_u64().unwrap() as usize).collect()).unwrap_or_default();
+            let reference = run_conn(cfg, &wires);
+            let (want, _) = decode_replies(&reference.written);
+            let mut chunks = vec![wires[0].clone()];
+            chunks.extend(split_at(&wires[1..].concat(), &cuts));
+            let out = run_conn(cfg, &chunks);
+            println!("config {}: SET k <{size} bytes> in its own read, then {:?} cut at {:?}", cfg.label(), r["body"], cuts);
+            match judge(&stream, &want, &out, "replay") {
+                Some(v) => {
+                    println!("{}", if v.detail.len() > 1500 { &v.detail[..1500] } else { &v.detail });
+                    println!("VIOLATION property=C04 replay={} ({})", path.display(), v.sig);
+                    std::process::exit(1);
+                }
+                None => {
+                    println!("replay: no violation");
+                    std::process::exit(0);
+                }
+            }
+        }
         let chunks: Vec<Vec<u8>> = r["chunks"].as_array().unwrap().iter().map(|c| resp::unescape(c.as_str().unwrap())).collect();
         let out = run_conn(cfg, &chunks);
         let (replies, rest) = decode_replies(&out.written);
@@ -444,6 +469,82 @@ fn main() {
         }
     });
 
+    // ---- large replies: a value of 4 KiB .. 200 kB is stored, then every body of <=3 commands over readers of it
+    // (bulk reply, nested reply, range reply) and small commands arrives in one read / frame per read / cut inside a
+    // body frame; sizes sit around the powers of two a buffer or a "large reply" shortcut is likely to use
+    let large_runs = AtomicU64::new(0);
+    {
+        let sizes: Vec<usize> = if thorough {
+            vec![4095, 4096, 4097, 8191, 8192, 8193, 16383, 16384, 16385, 32767, 32768, 32769, 65535, 65536, 65537, 200_000, 1_048_577]
+        } else {
+            vec![4096, 8191, 8192, 8193, 16383, 16384, 16385, 65536, 65537, 200_000]
+        };
+        let body_ops = ["GET k", "PING", "GET k2", "STRLEN k", "GETRANGE k 0 -1", "MGET k k2"];
+        let mut bodies: Vec<Vec<usize>> = Vec::new();
+        let mut cur: Vec<Vec<usize>> = vec![vec![]];
+        for _ in 0..3 {
+            cur = cur.iter().flat_map(|b| (0..body_ops.len()).map(move |o| { let mut x = b.clone(); x.push(o); x })).collect();
+            bodies.extend(cur.iter().cloned());
+        }
+        let items: Vec<(usize, usize)> = (0..sizes.len()).flat_map(|s| (0..bodies.len()).map(move |b| (s, b))).collect();
+        par::par_map(&items, |_, (si, bi)| {
+            let size = sizes[*si];
+            let big: Vec<u8> = (0..size).map(|i| b'a' + (i % 23) as u8).collect();
+            let mut stream: Vec<Argv> = vec![vec![b"SET".to_vec(), b"k".to_vec(), big]];
+            stream.extend(bodies[*bi].iter().map(|o| resp::line(body_ops[*o])));
+            let wires: Vec<Vec<u8>> = stream.iter().map(resp::wire).collect();
+            let twin = run_conn(reference_cfg, &wires);
+            large_runs.fetch_add(1, Ordering::Relaxed);
+            let (twin_replies, twin_rest) = decode_replies(&twin.written);
+            let show_short = |a: &Argv| resp::show_argv(&a.iter().map(|t| if t.len() > 40 { format!("<{} bytes>", t.len()).into_bytes() } else { t.clone() }).collect());
+            let desc = format!("[{}]", stream.iter().map(show_short).collect::<Vec<_>>().join("; "));
+            let names: Vec<String> = stream.iter().map(cmd_name).collect();
+            if twin.error.is_some() || !twin.finished || !twin_rest.is_empty() || twin_replies.len() != stream.len() {
+                rep.violation(
+                    format!("frame-per-read large-reply body=[{}]", names[1..].join(",")),
+                    format!("stream {desc} fed one frame per read: {} replies for {} commands, error={:?}", twin_replies.len(), stream.len(), twin.error),
+                    json!({"large": true, "size": size, "body": bodies[*bi].iter().map(|o| body_ops[*o]).collect::<Vec<_>>(), "cuts": [],
+                           "cfg": {"min_pipeline_buffer": reference_cfg.min_pipeline_buffer, "batch_threshold": reference_cfg.batch_threshold, "write_cap": reference_cfg.write_cap, "read_buffer_size": reference_cfg.read_buffer_size, "shards": reference_cfg.shards}}),
+                );
+                return;
+            }
+            let set_len = wires[0].len();
+            let body_bytes: Vec<u8> = wires[1..].concat();
+            // the SET always arrives in its own read; the body: whole, frame per read, and cut at every structural offset
+            let mut body_starts = Vec::new();
+            let mut o = 0;
+            for w in &wires[1..] {
+                body_starts.push(o);
+                o += w.len();
+            }
+            let mut segmentations: Vec<Vec<usize>> = vec![vec![], body_starts[1..].to_vec()];
+            segmentations.extend(structural_offsets(&body_starts, &body_bytes).into_iter().map(|c| vec![c]));
+            segmentations.sort();
+            segmentations.dedup();
+            for cfg in cfgs.iter() {
+                if cfg.read_buffer_size < 64 && size > 20_000 {
+                    continue; // tens of thousands of 5-byte reads per run: covered up to 16 KiB
+                }
+                for cuts in &segmentations {
+                    let mut chunks = vec![wires[0].clone()];
+                    chunks.extend(split_at(&body_bytes, cuts));
+                    let out = run_conn(*cfg, &chunks);
+                    large_runs.fetch_add(1, Ordering::Relaxed);
+                    let what = format!("stream {desc}: the SET in its own read, the rest cut at {:?} (config {})", cuts, cfg.label());
+                    if let Some(v) = judge(&stream, &twin_replies, &out, &what) {
+                        let detail = if v.detail.len() > 1500 { format!("{} …", &v.detail[..1500]) } else { v.detail };
+                        rep.violation(
+                            format!("large-reply {} size>={}", v.sig, if size >= 65535 { "64K" } else if size >= 16383 { "16K" } else if size >= 8191 { "8K" } else { "4K" }),
+                            detail,
+                            json!({"large": true, "size": size, "body": bodies[*bi].iter().map(|o| body_ops[*o]).collect::<Vec<_>>(), "cuts": cuts, "set_len": set_len,
+                                   "cfg": {"min_pipeline_buffer": cfg.min_pipeline_buffer, "batch_threshold": cfg.batch_threshold, "write_cap": cfg.write_cap, "read_buffer_size": cfg.read_buffer_size, "shards": cfg.shards}}),
+                        );
+                    }
+                }
+            }
+        });
+    }
+
     // ---- command-set sweep: every command shape of the parsers' command set, on an empty keyspace and after a
     // seeding frame per key type, followed by PING, at every single cut (quick: the seeded streams only at
     // structural offsets); replies compared with the frame-per-read run (unordered replies as multisets)
@@ -564,7 +665,7 @@ fn main() {
             }
         }
     });
-    let total_runs = runs.load(Ordering::Relaxed) + mal_runs.load(Ordering::Relaxed) + sweep_runs.load(Ordering::Relaxed);
+    let total_runs = runs.load(Ordering::Relaxed) + mal_runs.load(Ordering::Relaxed) + sweep_runs.load(Ordering::Relaxed) + large_runs.load(Ordering::Relaxed);
     let coverage = json!({
         "evaluations": total_runs,
         "distinct_nontrivial": distinct_outputs.lock().unwrap().len(),
@@ -574,6 +675,7 @@ fn main() {
         "configs": cfgs.iter().map(|c| c.label()).collect::<Vec<_>>(),
         "handler_runs_wellformed": runs.load(Ordering::Relaxed),
         "handler_runs_malformed": mal_runs.load(Ordering::Relaxed),
+        "large_replies": {"handler_runs": large_runs.load(Ordering::Relaxed), "rule": "SET k <value of 4 KiB .. 200 kB (thorough: .. 1 MiB+1), sizes around powers of two> in its own read, then every body of <=3 commands over {GET k, PING, GET k2, STRLEN k, GETRANGE k 0 -1, MGET k k2} whole / frame per read / cut at every structural offset, every configuration (5-byte read buffer up to 16 KiB)"},
         "command_set_sweep": {"command_instances": insts.len(), "streams": sweep_items.len(), "handler_runs": sweep_runs.load(Ordering::Relaxed),
             "rule": "stream = [optional seeding frame for k1 (string, list, set, hash, zset)] + one instance of every command shape of the parsers' command set + PING; whole and every single cut at every byte (quick: seeded streams at structural offsets) under 3 configurations (default, mpb1-bt2, 5-byte read buffer); replies compared with the frame-per-read run, unordered replies as multisets",
             "not_compared": "TIME, INFO, ACL GENPASS, SPOP without count"},
